@@ -95,6 +95,7 @@ def run_provider(kind, rng):
                 matches.append((sd.small_dataset(k, rng.choice([0, 100])), rng.choice([0xFF00, 0xFF01])))
         from pynetdicom2 import statuses
         lab.matches = [(d, statuses.Status(s, dm.CFindRSPMessage)) for d, s in matches]
+        lab.reuse_match_object = rng.random() < 0.3
         svc = sopclass.qr_find_scp if sop == FIND else sopclass.modality_work_list_scp
     elif kind == 'PMove':
         sop = MOVE
@@ -204,6 +205,7 @@ def find_case(rng, variant):
     matches = [(sd.small_dataset(k, rng.choice([0, 30, 400])) if rng.random() > 0.12 else empty_dataset(),
                 rng.choice([0xFF00, 0xFF01])) for k in range(n)]
     lab.matches = [(d, statuses.Status(s, dm.CFindRSPMessage)) for d, s in matches]
+    lab.reuse_match_object = reuse = rng.random() < 0.3
     svc = sopclass.modality_work_list_scp if variant == 'worklist' else sopclass.qr_find_scp
     err = None
     try:
@@ -221,6 +223,7 @@ def find_case(rng, variant):
     # re-run the provider to get fresh generators (the first ones were consumed by lab.sent())
     lab3 = sd.Lab(lab.assoc.max_pdu_length)
     lab3.matches = [(d, statuses.Status(s, dm.CFindRSPMessage)) for d, s in matches]
+    lab3.reuse_match_object = reuse
     msg3 = dm.CFindRQMessage()
     msg3.message_id = mid
     msg3.sop_class_uid = sop
@@ -248,6 +251,7 @@ def find_case(rng, variant):
         clist([sd.c_rsp(r) for r in sent]), cbool(query_seen),
         clist(['(%s, %d)' % ('None' if a is None else '(Some %s)' % cbytes(a), b) for a, b in ys]), cbool(extra_consumed))
     human = dict(variant=variant, n_matches=n, statuses=[hex(s) for _d, s in matches], pc=pc, message_id=mid,
+                 handler_reuses_one_object=reuse,
                  max_pdu=lab.assoc.max_pdu_length, provider_error=err, user_error=uerr, yielded=len(ys),
                  yielded_statuses=[hex(b) for _a, b in ys], query_seen=query_seen, extra_consumed=extra_consumed,
                  sizes=[len(sd.encode_ds(d)) for d, _s in matches])
@@ -304,11 +308,13 @@ def find_wrapper_case(rng, root_name):
                 rng.choice([0xFF00, 0xFF01])) for k in range(n)]
     query = sd.small_dataset(99, rng.choice([0, 50]))
     seen = []
+    reuse = rng.random() < 0.4
 
     class Srv(aemod.AE):
         def on_receive_find(self, context, ds):
             seen.append((str(context.sop_class), sd.encode_ds(ds)))
-            return iter([(d, statuses.Status(st, dm.CFindRSPMessage)) for d, st in matches])
+            pairs = [(d, statuses.Status(st, dm.CFindRSPMessage)) for d, st in matches]
+            return sd.reusing_one_object(pairs) if reuse else iter(pairs)
     srv = Srv('SERVER', 0, max_pdu_length=rng.choice([0, 256, 16384])).add_scp(sopclass.qr_find_scp)
     srv.handle_error = lambda *a: None
     ys, err = [], None
